@@ -19,8 +19,9 @@ import (
 // enables its own oracles.
 
 type casChild struct {
-	Kind int `json:"kind"`
-	Prio int `json:"prio"`
+	Kind     int  `json:"kind"`
+	Prio     int  `json:"prio"`
+	Deferred bool `json:"deferred,omitempty"` // the child monitor is created in the action, its event is added later by another goroutine
 }
 
 type casRule struct {
@@ -32,6 +33,7 @@ type casRule struct {
 	Yields   int        `json:"yields,omitempty"`
 	Children []casChild `json:"children,omitempty"`
 	SampleHP bool       `json:"sample_hp,omitempty"`
+	Scope    []string   `json:"scope,omitempty"` // scope paths the cascade must allow
 	Nested   int        `json:"nested_wait_kind,omitempty"` // the action starts a cascade of this kind with AddEventAndWait (blocks its worker)
 }
 
@@ -39,9 +41,12 @@ type casRoot struct {
 	Kind    int  `json:"kind"`
 	Wait    bool `json:"wait"`
 	PauseNs int  `json:"pause,omitempty"`
+	Scope   int  `json:"scope,omitempty"` // index into the plan's scopes (0 = default scope)
+	Late    bool `json:"set_after_monitor,omitempty"` // the fail-on-first-error setting gets its final value after the root monitor was created
 }
 
 type casPlan struct {
+	Scopes     []map[string]bool `json:"scopes,omitempty"` // cascade scopes (index 0 is the default scope and not listed)
 	ToggleFF   bool       `json:"toggle_fail_first_while_running,omitempty"` // the setting is changed after Start()
 	ResetCycle bool       `json:"reset_cycle,omitempty"` // configure, add a rule, Reset(), then add the real rules (multi-step API sequence)
 	Workers   int         `json:"workers"`
@@ -78,6 +83,10 @@ func casGen(r *simrt.RNG, tier string) interface{} {
 	p.ResetCycle = r.Bool(0.15)
 	p.ToggleFF = r.Bool(0.15)
 	p.NKinds = 2 + r.Intn(5)
+	widePrio := r.Bool(0.3) // many distinct priority levels active at once
+	if r.Bool(0.25) {
+		p.Scopes = []map[string]bool{{"": true, "s": false}, {"s": true}, {"": true, "s.t": false, "v": false}}[:1+r.Intn(3)]
+	}
 	// kinds form a DAG: a rule on kind k only adds children of kinds > k, so every
 	// cascade is finite (depth <= NKinds); some kinds have no rule (skipped events)
 	depthLeft := func(k int) int { return p.NKinds - 1 - k }
@@ -92,6 +101,12 @@ func casGen(r *simrt.RNG, tier string) interface{} {
 		}
 		for i := 0; i < n; i++ {
 			ru := casRule{Name: fmt.Sprintf("r%d", nr), Kind: k, Prio: r.Intn(4)}
+			if widePrio {
+				ru.Prio = r.Intn(9)
+			}
+			if len(p.Scopes) > 0 && r.Bool(0.5) {
+				ru.Scope = []string{[]string{"s", "s.t", "v", ""}[r.Intn(4)]}
+			}
 			if r.Bool(0.2) {
 				ru.Prio = r.Intn(7) - 3 // any integer orders rules, also negative ones
 			}
@@ -107,7 +122,11 @@ func casGen(r *simrt.RNG, tier string) interface{} {
 			if depthLeft(k) > 0 && r.Bool(0.6) {
 				nc := 1 + r.Intn(3)
 				for c := 0; c < nc; c++ {
-					ru.Children = append(ru.Children, casChild{Kind: k + 1 + r.Intn(depthLeft(k)), Prio: r.Intn(4)})
+					ch := casChild{Kind: k + 1 + r.Intn(depthLeft(k)), Prio: r.Intn(4), Deferred: r.Bool(0.12)}
+					if widePrio {
+						ch.Prio = r.Intn(9)
+					}
+					ru.Children = append(ru.Children, ch)
 				}
 			}
 			p.Rules = append(p.Rules, ru)
@@ -192,9 +211,16 @@ func casGen(r *simrt.RNG, tier string) interface{} {
 			if r.Bool(0.3) {
 				k = r.Intn(p.NKinds)
 			}
-			roots = append(roots, casRoot{Kind: k, Wait: r.Bool(0.7), PauseNs: r.Intn(20)})
+			ro := casRoot{Kind: k, Wait: r.Bool(0.7), PauseNs: r.Intn(20)}
+			if len(p.Scopes) > 0 {
+				ro.Scope = r.Intn(len(p.Scopes) + 1)
+			}
+			roots = append(roots, ro)
 		}
 		p.Clients = append(p.Clients, roots)
+	}
+	if len(p.Clients) == 1 && len(p.Clients[0]) == 1 && r.Bool(0.3) {
+		p.Clients[0][0].Late = true // only without other cascades in flight: the setting is global
 	}
 	return p
 }
@@ -321,6 +347,7 @@ type casEvent struct {
 	addEnd   int64
 	actions  []*casAction
 	adding   bool
+	deferred bool
 }
 
 type casCascade struct {
@@ -331,6 +358,7 @@ type casCascade struct {
 	waited    bool
 	rootEvent int
 	addingRoot bool
+	scope     map[string]bool // nil = default scope {"": true}
 }
 
 type casState struct {
@@ -344,6 +372,29 @@ type casState struct {
 	lastEnd  map[uint64]int64
 	byKind   map[int][]int // kind -> rule indexes
 	hpSamples int
+	deferred  simsync.WaitGroup
+}
+
+// rulesFor returns the rules that must run for an event: those of its kind whose scope
+// requirements the scope of its cascade allows.
+func (st *casState) rulesFor(e *casEvent) []int {
+	sc := st.cascades[e.root].scope
+	if sc == nil {
+		sc = map[string]bool{"": true}
+	}
+	var out []int
+	for _, ri := range st.byKind[e.kind] {
+		ok := true
+		for _, path := range st.p.Rules[ri].Scope {
+			if !refScopeAllowed(sc, path) {
+				ok = false
+			}
+		}
+		if ok {
+			out = append(out, ri)
+		}
+	}
+	return out
 }
 
 func kindName(k int) []string { return []string{"cas", fmt.Sprintf("k%d", k)} }
@@ -401,11 +452,24 @@ func (st *casState) action(ri int) engine.RuleAction {
 			ce.monPrio = c.Prio
 			cm := m.NewChildMonitor(c.Prio)
 			ce.mon = cm
+			if c.Deferred {
+				// the monitor exists (the cascade cannot finish without it); its event is
+				// added by another goroutine, possibly after this action has returned
+				ce.deferred = true
+				simrt.Count("fault_deferred_child_event")
+				st.deferred.Add(1)
+				simrt.Go("deferred-add", func() {
+					defer st.deferred.Done()
+					simrt.Yield()
+					st.add(p, ce, cm)
+				})
+				continue
+			}
 			st.add(p, ce, cm)
 		}
 		if ru.Nested > 0 {
 			simrt.Count("fault_nested_wait_in_action")
-			st.addRoot(p, ru.Nested, true)
+			st.addRoot(p, ru.Nested, true, 0, false)
 		}
 		if ru.SampleHP && st.prop == "C10" {
 			st.sampleHP(e, m)
@@ -451,6 +515,12 @@ func (st *casState) afterAdd(e *casEvent, res engine.Monitor, err error) {
 
 // sampleHP checks RootMonitor.HighestPriority from inside an action.
 func (st *casState) sampleHP(e *casEvent, m engine.Monitor) {
+	// the sample and the harness's view of the monitors are taken without a scheduling
+	// point in between (the accessors used are instrumented code)
+	simrt.Atomic(func() { st.sampleHPAtomic(e, m) })
+}
+
+func (st *casState) sampleHPAtomic(e *casEvent, m engine.Monitor) {
 	rm := m.RootMonitor()
 	hp := rm.HighestPriority()
 	st.hpSamples++
@@ -501,10 +571,25 @@ func (st *casState) sampleHP(e *casEvent, m engine.Monitor) {
 
 // addRoot starts a new cascade with a root event of the given kind (from a client
 // task, or - nested wait - from inside a rule action on a worker).
-func (st *casState) addRoot(proc engine.Processor, kind int, wait bool) {
+func (st *casState) addRoot(proc engine.Processor, kind int, wait bool, scopeIdx int, late bool) {
 	cas := &casCascade{id: len(st.cascades), waited: wait}
 	st.cascades = append(st.cascades, cas)
-	rm := proc.NewRootMonitor(nil, nil)
+	var rs *engine.RuleScope
+	if scopeIdx > 0 && scopeIdx <= len(st.p.Scopes) {
+		cas.scope = st.p.Scopes[scopeIdx-1]
+		rs = engine.NewRuleScope(cas.scope)
+	}
+	if late && (len(st.p.Clients) != 1 || len(st.p.Clients[0]) != 1) {
+		late = false // the setting is global: only without any other cascade in flight
+	}
+	if late {
+		proc.SetFailOnFirstErrorInTriggerSequence(!st.p.FailFirst)
+	}
+	rm := proc.NewRootMonitor(nil, rs)
+	if late {
+		// the setting gets its final value after the monitor exists, before the event is added
+		proc.SetFailOnFirstErrorInTriggerSequence(st.p.FailFirst)
+	}
 	cas.rm = rm
 	rm.SetFinishHandler(func(engine.Processor) {
 		cas.finished++
@@ -513,6 +598,12 @@ func (st *casState) addRoot(proc engine.Processor, kind int, wait bool) {
 		}
 		if n := st.running[cas.id]; n > 0 {
 			simrt.Fail("oracle:finish-early", "finish-early", "finish notification of cascade %d fired while %d of its actions were still running", cas.id, n)
+		}
+		// a finish handler typically reads the result of its cascade
+		if st.prop == "C02" {
+			st.checkErrors(cas, "finish handler")
+		} else {
+			_ = cas.rm.AllErrors()
 		}
 	})
 	e := st.newEvent(kind, cas.id, -1)
@@ -558,7 +649,11 @@ func casRun(p *casPlan, prop string) {
 	}
 	for i, ru := range p.Rules {
 		st.byKind[ru.Kind] = append(st.byKind[ru.Kind], i)
-		r := &engine.Rule{Name: ru.Name, KindMatch: []string{strings.Join(kindName(ru.Kind), ".")}, ScopeMatch: []string{},
+		sm := ru.Scope
+		if sm == nil {
+			sm = []string{}
+		}
+		r := &engine.Rule{Name: ru.Name, KindMatch: []string{strings.Join(kindName(ru.Kind), ".")}, ScopeMatch: sm,
 			Priority: ru.Prio, Action: st.action(i)}
 		if err := proc.AddRule(r); err != nil {
 			simrt.Fail("oracle:add-rule", "add-rule", "AddRule: %v", err)
@@ -580,7 +675,7 @@ func casRun(p *casPlan, prop string) {
 				if ro.PauseNs > 0 {
 					simtime.Sleep(simtime.Duration(ro.PauseNs))
 				}
-				st.addRoot(proc, ro.Kind, ro.Wait)
+				st.addRoot(proc, ro.Kind, ro.Wait, ro.Scope, ro.Late)
 			}
 		})
 	}
@@ -613,7 +708,7 @@ func (st *casState) checkCascadeAtReturn(cas *casCascade) {
 // expectedRules checks the actions of one processed event against the trigger
 // semantics (no assumption on the order among equal priorities).
 func (st *casState) checkEventActions(e *casEvent, when string) {
-	rules := st.byKind[e.kind]
+	rules := st.rulesFor(e)
 	if e.skipped || len(rules) == 0 {
 		if len(e.actions) > 0 {
 			simrt.Fail("oracle:rule-fired-for-skipped", "fired-for-skipped", "event %d was skipped but %d action(s) ran", e.id, len(e.actions))
@@ -664,7 +759,9 @@ func (st *casState) checkComplete(cas *casCascade, when string) {
 		if e.root != cas.id {
 			continue
 		}
-		if e.adding {
+		if e.adding && !e.deferred {
+			// (an event added by another goroutine can be processed completely before its
+			// AddEvent call has returned to that goroutine)
 			simrt.Fail("oracle:wait-returned-early", "wait-early/adding", "%s: event %d of cascade %d is still being added", when, e.id, cas.id)
 		}
 		st.checkEventActions(e, when)
@@ -862,8 +959,8 @@ func (st *casState) checkDequeueOrder() {
 	}
 	n := 0
 	for _, e := range st.events {
-		if e.skipped || len(st.byKind[e.kind]) == 0 {
-			continue
+		if e.skipped || len(st.rulesFor(e)) == 0 {
+			continue // (an event none of whose rules is in scope is queued and taken without a visible action)
 		}
 		prio := e.monPrio
 		if prio < 0 {
